@@ -112,6 +112,14 @@ def materialise(c, counts, layout, work):
         p = os.path.join(work, 'results.json.gz')
         write_gz(p, [record(c, d, off, n, nf) for d, off, nf in rows])
         return p
+    if kind == 'with_queued_simulation':
+        # a simulation of a further distance that has not run a single trial yet
+        # (BatchSimulation writes every queued simulation to the results file)
+        p = os.path.join(work, 'results.json.gz')
+        recs_ = [record(c, d, off, n, nf) for d, off, nf in rows]
+        recs_.append(record(c, max(c['ds']) + 2, 0, 0, 0))
+        write_gz(p, recs_)
+        return p
     if kind == 'out_of_codespace':
         p = os.path.join(work, 'results.json.gz')
         dmax = max(c['ds'])
